@@ -33,19 +33,27 @@ func todayUTC() time.Time { return time.Now().UTC().Truncate(24 * time.Hour) }
 
 func snapAgo(daysAgo int, r *gen.Rand) *asset.Snapshot {
 	p := gen.Round2(r.FRange(5, 500))
+	if r.Intn(2) == 0 {
+		p = r.FRange(5, 500) // all 17 significant digits (adjusted prices)
+	}
 	return &asset.Snapshot{Date: todayUTC().AddDate(0, 0, -daysAgo), Open: p, High: p + 2, Low: p - 1, Close: p + 1, Volume: float64(r.Range(100, 9999))}
 }
 
-func agoOf(repo asset.Repository, name string) ([]int, error) {
+// agoOf returns the dates of an asset as days before today and the snapshots
+// by that number.
+func agoOf(repo asset.Repository, name string) ([]int, map[int]asset.Snapshot, error) {
 	c, err := repo.Get(name)
 	if err != nil {
-		return nil, err
+		return nil, nil, err
 	}
 	var out []int
+	by := map[int]asset.Snapshot{}
 	for s := range c {
-		out = append(out, int(math.Round(todayUTC().Sub(s.Date).Hours()/24)))
+		d := int(math.Round(todayUTC().Sub(s.Date).Hours() / 24))
+		out = append(out, d)
+		by[d] = *s
 	}
-	return out, nil
+	return out, by, nil
 }
 
 // c12CLI runs cmd/indicator-sync between two file-system repositories.
@@ -66,9 +74,12 @@ func c12CLI(cc *run.Case) {
 		os.Mkdir(srcDir, 0o700)
 		os.Mkdir(tgtDir, 0o700)
 		src, tgt := asset.NewFileSystemRepository(srcDir), asset.NewFileSystemRepository(tgtDir)
-		const days = 20 // -days: assets new to the target start (now - 20 days); no snapshot is dated exactly 20 days ago
+		// -days: assets new to the target start (now - days); no snapshot is dated
+		// exactly 20 days ago; the large values mean "all history".
+		days := r.Pick(20, 20, 20, 36500, 150000, 1000000)
 		names := []string{"aa", "bb.c", "cvs", "d-d", "e5"}[:r.Range(2, 5)]
 		source := map[string][]int{} // days ago, descending (= chronological)
+		orig := map[string]map[int]asset.Snapshot{}
 		prefix := map[string]int{}
 		for _, name := range names {
 			var ago []int
@@ -79,11 +90,16 @@ func c12CLI(cc *run.Case) {
 			}
 			source[name] = ago
 			var snaps []*asset.Snapshot
+			orig[name] = map[int]asset.Snapshot{}
 			for _, d := range ago {
 				snaps = append(snaps, snapAgo(d, r))
+				orig[name][d] = *snaps[len(snaps)-1]
 			}
 			src.Append(name, helper.SliceToChan(snaps))
-			k := r.Range(-1, len(ago))
+			k := -1 // not in the target at all
+			if r.Intn(3) > 0 {
+				k = r.Range(0, len(ago))
+			}
 			prefix[name] = k
 			if k >= 0 {
 				tgt.Append(name, helper.SliceToChan(snaps[:k]))
@@ -121,10 +137,17 @@ func c12CLI(cc *run.Case) {
 					want = append(want, d)
 				}
 			}
-			got, err := agoOf(tgt, name)
+			got, gotBy, err := agoOf(tgt, name)
 			if err != nil && len(want) > 0 {
 				fail(fmt.Sprintf("asset %s cannot be read from the target: %v", name, err))
 				return
+			}
+			srcBy := orig[name] // as handed to the source repository, before any file round trip
+			for _, d := range got {
+				if a, b := gotBy[d], srcBy[d]; a.Open != b.Open || a.High != b.High || a.Low != b.Low || a.Close != b.Close || a.Volume != b.Volume {
+					fail(fmt.Sprintf("asset %s: the snapshot dated %d days ago differs between target (%v) and source (%v)", name, d, a, b))
+					return
+				}
 			}
 			if !eqInts(got, want) {
 				fail(fmt.Sprintf("asset %s holds snapshots dated %v days ago, expected %v (previous %v + source snapshots after the last date / inside the last %d days)", name, got, want, source[name][:k], days))
